@@ -304,6 +304,7 @@ Proof.
       destruct (HLi _ _ Y) as [Ai Ag]. destruct (G3 _ _ Y) as [Bi Bg]. split; congruence.
     + destruct (F3 u Y) as [A B]. destruct (F1 u Y) as [C D]. rewrite A, B, J2, G2. auto.
   - eapply same_but_trans; [exact S1|]. eapply same_but_trans; [|exact S3].
+    pose proof (r_renames_const pairs s1) as Hcst. rewrite E2 in Hcst. simpl in Hcst.
     repeat split; congruence.
 Qed.
 
@@ -313,7 +314,8 @@ Definition ex_a : name := [97]. Definition ex_b : name := [98]. Definition ex_c 
 Definition ex_state : rstate :=
   mkR (of_alist None [(0, Some ex_a); (1, Some ex_b); (2, Some ex_c)]) [(0, [(ex_a, 0); (ex_b, 1)])]
       (of_alist false [(0, true); (1, true)]) (of_alist false [(1, true)])
-      (of_alist None [(0, Some 0); (1, Some 0)]) (fun _ => false).
+      (of_alist None [(0, Some 0); (1, Some 0)]) (fun _ => false) (of_alist false [(0, true)]).
+(* initializer b (value 1) is PENDING: registered without a tensor (r_const false) *)
 
 Example ex_state_RInv : RInv ex_state.
 Proof.
@@ -336,5 +338,5 @@ Qed.
 Example ex_swap :
   let '(s', r) := rename_values [0; 1; 2] [ex_b; ex_a; ex_a] ex_state in
   r = Ok tt /\ map (r_vn s') [0; 1; 2] = [Some ex_b; Some ex_a; Some ex_a] /\
-  r_inits s' = [(0, [(ex_b, 0); (ex_a, 1)])].
+  r_inits s' = [(0, [(ex_b, 0); (ex_a, 1)])] /\ map (r_const s') [0; 1; 2] = [true; false; false].
 Proof. vm_compute. auto. Qed.
